@@ -153,6 +153,19 @@ def check_thresholds(ctx, rule: str):
     fr = defs.get("frequencies")
     ok = fr is not None and "min_value_counts" in unparse(fr) and "continuous_discretizer.values_orders" in unparse(fr) and "continuous_discretizer.labels_per_values" in unparse(fr)
     ctx.ob(rule, construct(fq, "bucket frequencies are measured on the fitted quantile labels"), ok, loc(fq))
+    fmv = repo.find_function(f"{F_DISC}::min_value_counts")
+    dflt = {k: const_value(v) for k, v in fmv.param_defaults().items()}
+    vc = [c for c in calls(fmv, "value_counts")]
+    ok = len(vc) == 1 and unparse(vc[0].func.value) == fmv.params[0] and dflt.get("dropna") is False and dflt.get("normalize") is True \
+        and unparse(kwarg(vc[0], "dropna")) == "dropna" and unparse(kwarg(vc[0], "normalize")) == "normalize"
+    mdefs = single_defs(fmv.node)
+    ol = mdefs.get("order_labels")
+    ok = ok and isinstance(ol, ast.ListComp) and not ol.generators[0].ifs and unparse(ol.generators[0].iter) == "order"
+    ok = ok and any(isinstance(c, ast.Call) and call_name(c) == "fillna" and unparse(c.args[0]) == "0" and "reindex(order_labels)" in unparse(c) for c in ast.walk(fmv.node))
+    rets = [r for r in walk_no_nested(fmv.node) if isinstance(r, ast.Return)]
+    ok = ok and len(rets) == 1 and "min()" in unparse(rets[0].value)
+    ctx.ob(rule, construct(fmv, "bucket frequency = share of ALL rows (missing included), every fitted bucket counted (0 when empty), minimum returned"), ok, loc(fmv),
+           "" if ok else "shares computed over a subset of the rows or of the buckets: a bucket below min_freq / 2 of the rows is never handed to the merge")
     # number of quantiles
     fc = repo.find_function(f"{F_QUAN}::ContinuousDiscretizer.__init__")
     ok = any(isinstance(n, ast.Assign) and unparse(n.targets[0]) == "self.q" and unparse(n.value).replace(" ", "") == "round(1/min_freq)" for n in walk_no_nested(fc.node))
@@ -352,6 +365,7 @@ def check_order_only(ctx, rule: str):
     scope = [
         (f"{F_QUAN}::np_find_quantiles", {"df_feature"}),
         (f"{F_QUAN}::find_quantiles", {"df_feature"}),
+        (f"{F_QUAN}::fit_feature", {"X"}),
         (f"{F_BASE}::transform_quantitative_feature", {"df_feature"}),
     ]
     for spec, seeds in scope:
